@@ -43,7 +43,7 @@ AFTER = {
     "C20-r3": "C20.R4 reported it through the missing bound atom; the `prompt depends on the instruction text` finding was added after this seed",
     "C01-r4": "caught by rules that existed before this seed was written (C01.R4 required dependency, C01.R12 flag predicates)",
     "C02-r4": "caught by rules that existed before this seed was written (C02.R10 sibling comparison); the form judgement of C02.R13 (`x > 8000h` is not a top-bit test) was added after it",
-    "C03-r4": "the high-digit-test clause of C03.R10 was added after this seed; before it the seed was missed (decimal-adjust values are not decided)",
+    "C03-r4": "the high-digit-test clause of C03.R10 and then C03.R14 (the adjusts as piecewise functions) were added after this seed; before them the seed was missed",
     "C07-r4": "reported by C07.R9, written before the seed; it became decidable only after `abs` got a model in V (before: undecided)",
     "C20-r1": "caught through C17.R3 (the print range rule), which was extended after this seed; no rule of C20 decides it",
 }
